@@ -15,6 +15,12 @@ classmethod; Combination of 1..3 functions.  For every call shape:
      the extracted driver for every object and inside Coq for a sample, which
      also evaluates the model's result terms, `get` and `wrappers`) equals the
      implementation's.
+
+Histories: a class may be a value class (all instances ==, same hash); the member
+is then looked up on INST, on a distinct equal INST2, and on INST again, and every
+result is compared with the composition run on THAT instance (identity, not ==).
+A stack may use the same wrapping function in adjacent layers (the same decorator
+object applied twice, or two decorators built from one raw function).
 """
 import inspect
 import itertools
@@ -40,6 +46,7 @@ XN, YN, ZN, HN = id_of_name('x'), id_of_name('y'), id_of_name('z'), id_of_name('
 AN, BN, CN = id_of_name('a'), id_of_name('b'), id_of_name('c')
 CLS = id_of_name('cls')
 INST_VAL, CLS_VAL = 77, 88
+INST2_VAL = 78
 
 KEY_SELF = 'C13:self-collision'
 KEY_COMB_INSPECT = 'C13:combination-inspect'
@@ -316,8 +323,27 @@ def lit_kw(k):
     return 950 + k
 
 
+def layer_wid(i, layer):
+    """index of the raw wrapping function used by layer i (1-based): its own, unless the layer
+    re-uses the function of a layer above it (the same function in adjacent layers)"""
+    return layer.get('reuse') or i
+
+
 def wrapper_src(i, layer):
     own, n, names, mode = layer['own'], layer['n'], layer['names'], layer['mode']
+    j = layer.get('reuse')
+    if j:
+        # the SAME wrapping function as layer j: either the very same decorator object applied
+        # twice, or a second decorator (possibly of the other flavour) made from the same function
+        head = 'w%d_raw = w%d_raw\n' % (i, j)
+        if layer.get('sameobj'):
+            return head + 'w%d = w%d\n' % (i, j)
+        if layer['flavour'] == 'simple':
+            return head + 'w%d = wrappers.decorator(w%d_raw)\n' % (i, j)
+        if n or names:
+            da = ', '.join([str(n)] + [repr(name_of(k)) for k in names])
+            return head + 'w%d = wrappers.wrapper_decorator(%s)(w%d_raw)\n' % (i, da, j)
+        return head + 'w%d = wrappers.wrapper_decorator(w%d_raw)\n' % (i, j)
     parts = [str(lit_pos(j)) for j in range(n)] + ['*args']
     parts += ['%s=%d' % (name_of(k), lit_kw(k)) for k in names] + ['**kwargs']
     callee = 'func(%s)' % ', '.join(parts)
@@ -421,7 +447,7 @@ def stack_program(spec):
     def deco(x):
         for i in range(d, 0, -1):
             l = layers[i - 1]
-            x = ('deco', l['flavour'], l['n'], list(l['names']), i, wrapper_params(l['own']),
+            x = ('deco', l['flavour'], l['n'], list(l['names']), layer_wid(i, l), wrapper_params(l['own']),
                  (l['own'], l['n'], list(l['names']), l['mode']), x)
         return x
 
@@ -464,7 +490,16 @@ def stack_program(spec):
             member, stored = 'classmethod(%s)' % wrap('f_raw'), ('classm', deco(plain))
         else:
             member, stored = wrap('classmethod(f_raw)'), deco(('classm', plain))
-        src.append('class K(object):\n    f = %s\nINST = K()\n' % member)
+        equal = spec.get('insts') == 'equal'
+        if equal:
+            # value objects: every two instances compare equal and hash equal, yet are distinct
+            src.append('class K(object):\n'
+                       '    def __eq__(self, other):\n        return isinstance(other, K)\n'
+                       '    def __ne__(self, other):\n        return not isinstance(other, K)\n'
+                       '    def __hash__(self):\n        return 7\n'
+                       '    f = %s\nINST = K()\nINST2 = K()\n' % member)
+        else:
+            src.append('class K(object):\n    f = %s\nINST = K()\n' % member)
         if pl == 'method':
             bases = ('f_raw', 'types.MethodType(f_raw, INST)')
         elif pl.startswith('static'):
@@ -476,6 +511,12 @@ def stack_program(spec):
         if pl in ('method', 'static_inner'):
             # the very object stored in the class, without going through __get__
             access.append(("K.__dict__['f']", "K.__dict__['f']", 'f_raw', stored))
+        if equal:
+            # looked up on a second, equal instance AFTER the first one, then on the first again:
+            # each must run against the instance it was looked up on
+            access.append(('INST2.f [INST2 = K() == INST, looked up after INST.f]', 'INST2.f',
+                           bases[1].replace('INST', 'INST2'), m_get(stored, True)))
+            access.append(('INST.f [looked up again after INST2.f]', 'INST.f', bases[1], m_get(stored, True)))
     src.append('WRAPPERS = [%s]\n' % ', '.join('w%d_raw' % i for i in range(1, d + 1)))
     for j, (label, oe, be, mo) in enumerate(access):
         src.append('OBJ%d = %s\nBASE%d = %s\ndef ref%d(*args, **kwargs):\n    return %s\n' % (
@@ -602,11 +643,25 @@ def noncolliding(c, sig, names_in):
     return all(k in kwp or k not in names_in for k in c[1])
 
 
+def ident(v):
+    """a returned value with every object that is not plain data (instances, classes) replaced by
+    its IDENTITY: two distinct instances that compare equal are different results"""
+    if isinstance(v, (tuple, list)):
+        return (type(v).__name__,) + tuple(ident(x) for x in v)
+    if isinstance(v, dict):
+        return ('dict',) + tuple(sorted((k, ident(x)) for k, x in v.items()))
+    if v is None or type(v) in (int, str, bool, float):
+        return v
+    return ('@object', id(v))
+
+
 def same_outcome(a, b):
     if a[0] != b[0]:
         return False
     if a[0] == 'type':
         return True
+    if a[0] == 'ok':
+        return ident(a[1]) == ident(b[1])
     return a == b
 
 
@@ -830,6 +885,22 @@ def gen_stack_spec(rng, U_f, U_owns):
         for l in layers:
             l['names'] = [k for k in l['names'] if k != fparams[0][0]]
     spec['stepwise'] = rng.random() < 0.5
+    if pl != 'function' and rng.random() < (0.6 if pl == 'method' else 0.3):
+        # the class is a value class: two distinct instances that compare and hash equal
+        spec['insts'] = 'equal'
+    if depth >= 2 and rng.random() < 0.35:
+        # the same wrapping function in adjacent layers: layer i+1 re-uses the raw function of
+        # layer i (the same decorator object applied twice, or a second decorator made from the
+        # same function).  Such a function has no own parameters (their names would collide) and
+        # writes no literal keyword (the same keyword written twice fails every call).
+        start = rng.randrange(depth - 1)
+        run_len = 2 if depth == 2 or rng.random() < 0.6 else depth - start
+        root = layers[start]
+        root['own'], root['names'] = [], []
+        for i in range(start + 1, min(depth, start + run_len)):
+            flavour = rng.choice(['simple', 'declared'])
+            layers[i] = dict(root, flavour=flavour, reuse=start + 1,
+                             sameobj=flavour == root['flavour'] and rng.random() < 0.6)
     r = rng.random()
     named = [p[0] for p in fparams if p[1] in ('PO', 'PK', 'KO')]
     if r < 0.25:
@@ -921,6 +992,8 @@ def coq_value(v, ns):
         return '(Kw [%s])' % '; '.join('(%d%%N, %s)' % (id_of_name(k), coq_value(x, ns)) for k, x in v.items())
     if v is ns.get('INST'):
         return '(Val %d%%N)' % INST_VAL
+    if v is ns.get('INST2'):
+        return '(Val %d%%N)' % INST2_VAL
     if v is ns.get('K'):
         return '(Val %d%%N)' % CLS_VAL
     raise ValueError(v)
@@ -989,6 +1062,8 @@ def coq_case(stored, access_kind, ns, j, calls, info):
         oe = coq_obj(stored)
     elif access_kind == 'class':
         oe = '(get %s None (Val %d%%N))' % (coq_obj(stored), CLS_VAL)
+    elif access_kind == 'inst2':
+        oe = '(get %s (Some (Val %d%%N)) (Val %d%%N))' % (coq_obj(stored), INST2_VAL, CLS_VAL)
     else:
         oe = '(get %s (Some (Val %d%%N)) (Val %d%%N))' % (coq_obj(stored), INST_VAL, CLS_VAL)
     obj = ns['OBJ%d' % j]
@@ -1089,7 +1164,7 @@ def process_program(rep, kind, spec, src, stored, access, rng, cap, stats, coq_s
                 rep.distinct.add((tuple(shape_of(mr[1])), len(m_wrappers(mobj))))
         if want_coq and sum(1 for x in coq_sample if x[2] == kind) < want_coq[0]:
             ak = 'direct' if (kind == 'comb' or label == 'f' or label.startswith('K.__dict__')) \
-                else ('class' if label == 'K.f' else 'inst')
+                else ('class' if label == 'K.f' else 'inst2' if label.startswith('INST2.') else 'inst')
             try:
                 term = coq_case(mobj if kind == 'comb' else stored, ak, ns, j, calls[:6] + calls[-8:], info)
                 coq_sample.append(('%s of\n%s' % (label, src), term, kind))
@@ -1113,7 +1188,8 @@ def run(ctx, rep):
     want_coq = [200 if ctx.quick else 1000]
     want_coq_comb = [80 if ctx.quick else 400]
     stats = {k: 0 for k in ('objects', 'calls', 'accepted', 'typeerrors', 'raised', 'crash_class', 'model_err',
-                            'method_pairs', 'coq_skipped')}
+                            'method_pairs', 'coq_skipped', 'equal_instance_programs',
+                            'repeated_wrapper_programs', 'same_decorator_object_twice')}
     by_place = {}
     by_depth = {}
     coq_sample = []
@@ -1121,6 +1197,12 @@ def run(ctx, rep):
         spec = gen_stack_spec(rng, U_f3 if rng.random() < 0.25 else U_f, U_owns)
         by_place[spec['placement']] = by_place.get(spec['placement'], 0) + 1
         by_depth[len(spec['layers'])] = by_depth.get(len(spec['layers']), 0) + 1
+        if spec.get('insts') == 'equal':
+            stats['equal_instance_programs'] += 1
+        if any(l.get('reuse') for l in spec['layers']):
+            stats['repeated_wrapper_programs'] += 1
+            if any(l.get('sameobj') for l in spec['layers']):
+                stats['same_decorator_object_twice'] += 1
         src, stored, access = stack_program(spec)
         process_program(rep, 'stack', spec, src, stored, access, rng, cap, stats, coq_sample,
                         want_coq if i % 2 == 0 else None)
@@ -1143,7 +1225,10 @@ def run(ctx, rep):
     rep.coverage['driver_requests'] = DRV.n
     rep.rule = ('generated programs: def w(func, <0-2 own params PO/PK/KO with defaults>, *args, **kwargs) x '
                 '{decorator, wrapper_decorator} x {returning, raising before/after the call, literal arguments} '
-                'stacked 1..3 over U(2,{a,b}) / U(3,{a,b,c}) functions, 6 placements, 2 access paths; Combination of 1..3 '
+                'stacked 1..3 over U(2,{a,b}) / U(3,{a,b,c}) functions (also the same wrapping function in adjacent '
+                'layers: same decorator object twice or two decorators of one function), 6 placements, 2 access paths '
+                '(+ value classes: a second, equal-but-distinct instance looked up after the first, results compared by '
+                'identity of the instances); Combination of 1..3 '
                 '(nested, decorated members); every positional count x keyword subsets (incl. foreign h, func, self); '
                 'evaluations = executed calls (each also executed on the hand-written composition); '
                 'non-trivial = distinct (reported signature, depth) of decorated objects')
